@@ -35,7 +35,8 @@
 From Coq Require Import ZArith List Bool.
 From CanVerif Require Import Socketcan.Wire Socketcan.WireSpec Socketcan.Receiver Socketcan.ReceiverSpec
   Socketcan.ReceiverProofs Socketcan.Transmitter Socketcan.TransmitterProofs
-  Socketcan.Process Socketcan.ProcessProofs Socketcan.ScanBuffer Socketcan.ScanBufferProofs.
+  Socketcan.Process Socketcan.ProcessProofs Socketcan.ScanBuffer Socketcan.ScanBufferProofs
+  Socketcan.Glue Socketcan.GlueProofs.
 Import ListNotations.
 Open Scope Z_scope.
 
@@ -277,3 +278,206 @@ Example C07_process_nonvacuous :
   addressed_to 0 ops = [ONew true [RData s0]; OReceive; OClose; OClose; OReceive; OReceive] /\
   strip_icpt (frame_event s1) <> frame_event s1.
 Proof. vm_compute. repeat split. discriminate. Qed.
+
+(** CONNECTION GLUE (Socketcan/Glue.v): fileConn (fileconn.go), udpTxRx (udp.go), dialCtx (dial.go) as
+    forwarding machines. Error values are trees: [GNil] = nil, [GLeaf c] = an error without Unwrap,
+    [GWrap w e] = a wrapper ([WPath] *os.PathError, [WSyscall] *os.SyscallError, [WOp l net]
+    *net.OpError{Op: l, Net: net}, [WFmt] fmt.Errorf %w) whose Unwrap() is e; [wrap_all ws e] wraps e
+    in ws (outermost first); [no_path ws] = no WPath among ws; [path_free e] = no WPath in the chain.
+    Operations [OpRead n | OpWrite bs | OpSetDeadline t | OpSetReadDeadline t | OpSetWriteDeadline t | OpClose];
+    calls on an underlying object [CRead n | CWrite bs | CSetDeadline t | ...| CClose]; [call_of o] =
+    the same method with the same arguments; an underlying call answers [mkAns n data err].
+    [fileconn_step net o a] = (calls made on the file, result (n, data, err)) when the file answers a;
+    [fileconn_run net ops script] = a history, the file answering from the script;
+    [udp_step o arx atx], [udp_run ops srx stx] the same for udpTxRx over its rx and tx packet conns
+    (calls tagged [Rx] / [Tx]; a script entry is consumed only by a call made on that side;
+    [side_calls s outs] = number of calls made on side s by the steps outs). *)
+
+(** unwrapPathError: exactly one *os.PathError level is removed - the outermost one in the Unwrap chain
+    (with the wrappers around it); what it wrapped is returned untouched, deeper PathError levels
+    included; an error without a PathError in its chain is returned unchanged; and every error value
+    has one of these two shapes *)
+Theorem C07_glue_unwrap_one_level : forall ws inner e,
+  (no_path ws = true -> unwrap_path_error (wrap_all ws (GWrap WPath inner)) = inner) /\
+  (path_free e = true -> unwrap_path_error e = e) /\
+  (path_free e = true \/ exists ws' inner', no_path ws' = true /\ e = wrap_all ws' (GWrap WPath inner')).
+Proof. exact (fun ws inner e => conj (unwrap_one_level ws inner) (conj (unwrap_path_free e) (gerr_shape e))). Qed.
+Print Assumptions C07_glue_unwrap_one_level.
+
+(** fileConn, one operation: exactly one call on the file - the same method with the same arguments -;
+    an error comes back iff the file's call failed, as *net.OpError{Op: the operation's label, Net: the
+    conn's network} around the file's error with one PathError level removed; count and data of
+    Read / Write pass through unchanged, also together with an error *)
+Theorem C07_glue_fileconn_transparent : forall net o a,
+  fst (fileconn_step net o a) = [call_of o] /\
+  (rerr (snd (fileconn_step net o a)) = GNil <-> aerr a = GNil) /\
+  (aerr a <> GNil ->
+     rerr (snd (fileconn_step net o a)) = GWrap (WOp (label_of o) net) (unwrap_path_error (aerr a))) /\
+  (carries_count o = true -> rn (snd (fileconn_step net o a)) = an a) /\
+  (carries_data o = true -> rdata (snd (fileconn_step net o a)) = adata a).
+Proof. exact fileconn_step_transparent. Qed.
+Print Assumptions C07_glue_fileconn_transparent.
+
+(** fileConn, EVERY history and EVERY script: the k-th operation makes its own call and returns the
+    k-th answer passed through; over the whole history the file sees exactly the operations, in
+    order, and NOTHING else (a failed Read triggers no Close, ...) *)
+Theorem C07_glue_fileconn_history : forall net ops script,
+  length (fileconn_run net ops script) = length ops /\
+  concat (map fst (fileconn_run net ops script)) = map call_of ops /\
+  forall k o, nth_error ops k = Some o ->
+    nth_error (fileconn_run net ops script) k =
+      Some ([call_of o], fileconn_result net o (nth k script ans_ok)).
+Proof.
+  exact (fun net ops script => conj (fileconn_run_length net ops script)
+           (conj (fileconn_run_calls net ops script) (fileconn_run_nth net ops script))).
+Qed.
+Print Assumptions C07_glue_fileconn_history.
+
+(** udpTxRx, one operation, the complete table: Read -> rx.ReadFrom only; Write -> tx.WriteTo only;
+    SetDeadline -> rx.SetReadDeadline, then tx.SetWriteDeadline only if that succeeded;
+    SetReadDeadline -> rx only; SetWriteDeadline -> tx only; Close -> tx.Close then rx.Close whatever
+    tx.Close answered, result = tx's error if any, else rx's. Results are the underlying answers,
+    unchanged (udpTxRx wraps nothing) *)
+Theorem C07_glue_udp_cases : forall o arx atx,
+  udp_step o arx atx =
+    match o with
+    | OpRead n => ([(Rx, CRead n)], mkRes (an arx) (adata arx) (aerr arx))
+    | OpWrite bs => ([(Tx, CWrite bs)], mkRes (an atx) [] (aerr atx))
+    | OpSetDeadline t =>
+        match aerr arx with
+        | GNil => ([(Rx, CSetReadDeadline t); (Tx, CSetWriteDeadline t)], mkRes 0 [] (aerr atx))
+        | e => ([(Rx, CSetReadDeadline t)], mkRes 0 [] e)
+        end
+    | OpSetReadDeadline t => ([(Rx, CSetReadDeadline t)], mkRes 0 [] (aerr arx))
+    | OpSetWriteDeadline t => ([(Tx, CSetWriteDeadline t)], mkRes 0 [] (aerr atx))
+    | OpClose =>
+        ([(Tx, CClose); (Rx, CClose)],
+         mkRes 0 [] (match aerr atx with GNil => aerr arx | e => e end))
+    end.
+Proof. exact udp_step_cases. Qed.
+Print Assumptions C07_glue_udp_cases.
+
+(** udpTxRx, EVERY history and both scripts: the rx side only ever sees ReadFrom / SetReadDeadline /
+    Close, the tx side only WriteTo / SetWriteDeadline / Close (a write deadline never reaches the read
+    side, SetDeadline is never forwarded as such); a packet conn is closed only by Close; the k-th
+    operation is answered by the script entries at the positions given by the calls made on each
+    side before it *)
+Theorem C07_glue_udp_history : forall ops srx stx,
+  length (udp_run ops srx stx) = length ops /\
+  Forall (fun st => Forall (fun c => match c with
+                                     | (Rx, CRead _) | (Rx, CSetReadDeadline _) | (Rx, CClose)
+                                     | (Tx, CWrite _) | (Tx, CSetWriteDeadline _) | (Tx, CClose) => True
+                                     | _ => False
+                                     end) (fst st)) (udp_run ops srx stx) /\
+  (forall k o, nth_error ops k = Some o ->
+     nth_error (udp_run ops srx stx) k =
+       Some (udp_step o (nth (side_calls Rx (firstn k (udp_run ops srx stx))) srx ans_ok)
+                        (nth (side_calls Tx (firstn k (udp_run ops srx stx))) stx ans_ok))) /\
+  (forall o arx atx s, In (s, CClose) (fst (udp_step o arx atx)) -> o = OpClose).
+Proof.
+  exact (fun ops srx stx => conj (udp_run_length ops srx stx) (conj (udp_run_discipline ops srx stx)
+           (conj (udp_run_nth ops srx stx) udp_close_only_by_close))).
+Qed.
+Print Assumptions C07_glue_udp_history.
+
+(** RECEIVER OVER fileConn. [fileconn_reads net lens script] = what the reads of a fileConn return when
+    its file answers from script (lens = the buffer sizes offered, irrelevant); [read_of_result code r]
+    = that result as a read result of Receiver.v ((n, nil) -> RData, (0, e) -> RErr, (n, e) -> RDataErr,
+    the error value named EOther (code e) for ANY naming code); [mapped_read code net a] = the file's
+    answer with its error mapped e |-> OpError{read, net, e minus one PathError level}. A Receiver
+    over the fileConn sees exactly what a Receiver over the mapped script sees - so every theorem
+    above applies through the glue *)
+Theorem C07_glue_receiver_over_fileconn : forall code net lens script n,
+  length lens = length script ->
+  receive_calls n (map (read_of_result code) (fileconn_reads net lens script)) =
+    receive_calls n (map (mapped_read code net) script).
+Proof. exact receiver_over_fileconn. Qed.
+Print Assumptions C07_glue_receiver_over_fileconn.
+
+(** in particular: any chunking of the stream by the file, then a failing file read (error e with or
+    without data; e = io.EOF = GLeaf 0 included): the frames of the bytes delivered, then Receive() =
+    false and Err() = the OpError around e - through a fileConn Err() is NEVER nil after the end of the
+    stream, because the scanner's `err == io.EOF` no longer recognises the wrapped io.EOF *)
+Theorem C07_glue_receiver_stream : forall code net lens chunks a rest n,
+  no_stall 0 chunks -> aerr a <> GNil ->
+  length lens = length (map data_answer chunks ++ a :: rest) ->
+  receive_calls n (map (read_of_result code)
+                     (fileconn_reads net lens (map data_answer chunks ++ a :: rest))) =
+    let evs := map frame_event (chunks16 (concat chunks ++ adata a)) in
+    firstn n evs ++
+    repeat (EvStop [] zero_frame
+              (Some (EOther (code (GWrap (WOp LRead net) (unwrap_path_error (aerr a)))))))
+           (n - length evs).
+Proof. exact receiver_over_fileconn_stream. Qed.
+Print Assumptions C07_glue_receiver_stream.
+
+(** TRANSMITTER OVER fileConn whose file answers adl to SetWriteDeadline and awr to Write
+    ([answers_via_fileconn] = the conn answers the Transmitter model then gets, [file_calls] = the
+    calls its conn calls become on the file): the file sees SetWriteDeadline (iff the context has a
+    deadline) and then ONE Write of the frame's bytes, unchanged (none if setting the deadline failed);
+    the call succeeds iff the file's calls did; the byte count is the file's *)
+Theorem C07_glue_transmitter_over_fileconn : forall code net t dl adl awr f,
+  exists data, transmit_bytes f = Some data /\
+  let ans := answers_via_fileconn code net t data adl awr in
+  file_calls net t (fst (transmit dl ans f)) =
+    (if dl then [CSetWriteDeadline t] else []) ++
+    (if dl && negb (is_nil_err (aerr adl)) then [] else [CWrite data]) /\
+  (snd (transmit dl ans f) = TxOk <-> (dl = true -> aerr adl = GNil) /\ aerr awr = GNil) /\
+  ans_write_n ans = an awr.
+Proof. exact transmitter_over_fileconn. Qed.
+Print Assumptions C07_glue_transmitter_over_fileconn.
+
+(** dialCtx as a transition system over the events [EProvider] (connProvider returned (conn non-nil?
+    [pconn p], error [perr p]) and blocks in its send), [ECtxDone], [ESelect b] (the caller's select
+    fires; b = the runtime's choice when both cases are ready), [ECleanup] (the cleanup goroutine
+    receives). For EVERY schedule: ctx.Err() is returned only if ctx was done; otherwise the
+    provider's own result is returned; the provider's conn is closed at most once, never when it was
+    returned or nil; and when nothing is pending any more a conn that was produced has been returned
+    XOR closed exactly once - dialCtx never leaks a connection *)
+Theorem C07_glue_dial_no_leak : forall p es,
+  let s := dial_run p dial0 es in
+  (d_ret s = DCtxErr -> d_ctx s = true) /\
+  (forall c e, d_ret s = DResult c e -> c = pconn p /\ e = perr p) /\
+  (0 <= d_closes s <= 1) /\
+  (dial_returned_conn s = true -> d_closes s = 0) /\
+  (pconn p = false -> d_closes s = 0) /\
+  (dial_finished s = true -> pconn p = true ->
+     (dial_returned_conn s = true /\ d_closes s = 0) \/
+     (dial_returned_conn s = false /\ d_ret s = DCtxErr /\ d_closes s = 1)).
+Proof. exact dial_no_leak. Qed.
+Print Assumptions C07_glue_dial_no_leak.
+
+(** and that end is always reached once the provider returns, the select fires and the cleanup runs *)
+Theorem C07_glue_dial_completes : forall p es b,
+  dial_finished (dial_run p dial0 (es ++ [EProvider; ESelect b; ECleanup])) = true.
+Proof. exact dial_completes. Qed.
+Print Assumptions C07_glue_dial_completes.
+
+(** non-vacuity of the glue theorems: a doubly wrapped PathError loses ONE level; a fileConn history with
+    a failing Read (3 bytes AND a SyscallError(PathError(EOF))) followed by a write deadline and Close;
+    a udpTxRx history where SetDeadline fails on the read side (tx untouched, its script entry kept for
+    the next Write) and tx.Close fails (rx still closed, tx's error returned); a Receiver over a fileConn
+    whose file delivers 16 bytes as 5 + 11 and then io.EOF; dialCtx losing the race: the late conn is
+    closed once and not returned *)
+Example C07_glue_nonvacuous :
+  unwrap_path_error (GWrap WSyscall (GWrap WPath (GWrap WPath (GLeaf 7)))) = GWrap WPath (GLeaf 7) /\
+  fileconn_run 1 [OpRead 8; OpSetWriteDeadline 5; OpClose]
+     [mkAns 3 [1; 2; 3] (GWrap WSyscall (GWrap WPath (GLeaf 0))); ans_ok; mkAns 0 [] (GLeaf 9)] =
+    [([CRead 8], mkRes 3 [1; 2; 3] (GWrap (WOp LRead 1) (GLeaf 0)));
+     ([CSetWriteDeadline 5], mkRes 0 [] GNil);
+     ([CClose], mkRes 0 [] (GWrap (WOp LClose 1) (GLeaf 9)))] /\
+  udp_run [OpSetDeadline 4; OpWrite [7; 8]; OpClose]
+     [mkAns 0 [] (GLeaf 3); mkAns 0 [] (GLeaf 5)] [mkAns 2 [] GNil; mkAns 0 [] (GLeaf 6)] =
+    [([(Rx, CSetReadDeadline 4)], mkRes 0 [] (GLeaf 3));
+     ([(Tx, CWrite [7; 8])], mkRes 2 [] GNil);
+     ([(Tx, CClose); (Rx, CClose)], mkRes 0 [] (GLeaf 6))] /\
+  (let bs := map Z.of_nat (seq 1 16) in
+   receive_calls 2 (map (read_of_result (fun _ => 77))
+                      (fileconn_reads 1 [4096; 4096; 4096]
+                         [data_answer (firstn 5 bs); data_answer (skipn 5 bs); mkAns 0 [] (GLeaf 0)])) =
+     [frame_event bs; EvStop [] zero_frame (Some (EOther 77))]) /\
+  (let s := dial_run (mkPres true GNil) dial0 [ECtxDone; ESelect true; EProvider; ECleanup] in
+   d_ret s = DCtxErr /\ d_closes s = 1 /\ dial_finished s = true /\ dial_returned_conn s = false) /\
+  (let s := dial_run (mkPres true GNil) dial0 [EProvider; ECtxDone; ESelect false; ECleanup] in
+   d_ret s = DResult true GNil /\ d_closes s = 0 /\ dial_finished s = true).
+Proof. vm_compute. repeat split. Qed.
